@@ -1718,10 +1718,10 @@ def run(ctx: Ctx) -> None:
             read_texts.append(c.params)
     run_cases(ctx, cases)
     run_read_stream(ctx, read_texts)
-    run_overloads(ctx, 440 if ctx.quick else 4400)
+    run_overloads(ctx, 330 if ctx.quick else 4400)
     run_unstring(ctx, 2, 300 if ctx.quick else 40000)
     run_decorators(ctx, 200 if ctx.quick else 6000)
-    run_module_constants(ctx, 200 if ctx.quick else 6000)
+    run_module_constants(ctx, 150 if ctx.quick else 6000)
 
 
 # ------------------------------------------------------------------ replay
